@@ -91,7 +91,7 @@ var props = []*core.Property{
 		technique: "finite-domain tabulation of byte dispatches (256 values each) with helper-call folding; failed-edge propagation",
 		expl:      "decides the structural byte discipline of the container scanners and the acceptance decision",
 		notCovered: []string{"soundness of the scalar scanners (strings, numbers, literals) for every non-JSON string"},
-		rules:      []*core.Rule{ruleFailProp, ruleTruncTable, ruleParseResults, ruleAccounting, ruleSeparators, ruleTokenGate, rulePools}}),
+		rules:      []*core.Rule{ruleFailProp, ruleTruncTable, ruleParseResults, ruleAccounting, ruleSeparators, ruleTokenGate, rulePools, ruleSnapshot}}),
 	mk(pd{id: "C10", level: "other",
 		levelText: "Path-stack push/pop balance on every success path and no underflow; query tables equal the RFC 7946 / HAR / glTF specification tables; query discipline: every key is matched against every query by full path equality, the member is judged right after its value and before any other exit, the verdict flag is only set under match and value equality and never cleared; detector/query/node agreement and sibling order.",
 		technique: "counting typestate over the scanner CFGs; constant folding of the query table; shape and dominance rules on the object scanner",
@@ -109,25 +109,25 @@ var props = []*core.Property{
 		technique: "typestate (field store before first token call); finite-domain tabulation; dominance rules",
 		expl:      "decides the label plumbing around the x/net tokenizer and encoding/xml",
 		notCovered: []string{"the WHATWG prescan as implemented by x/net/html", "quoting / whitespace variants inside the XML declaration"},
-		rules:      []*core.Rule{ruleSnifferMap, ruleDecoderTypestate, ruleLowerCase, ruleHTMLOrder, ruleParams}}),
+		rules:      []*core.Rule{ruleSnifferMap, ruleDecoderTypestate, ruleLowerCase, ruleHTMLOrder, ruleParams, ruleReader, ruleLimitSlice}}),
 	mk(pd{id: "C13", level: "other",
 		levelText: "Line cutting agrees with the JSON truncation table (same order types); both detectors pass their own (header, limit) through it first; NDJSON lines are judged by the parsed length; thresholds tabulated (lines >= 2 and containers >= 1; fields >= 2 and records >= 2); csv reader: FieldsPerRecord untouched, detector's delimiter, EOF ends, any other error rejects.",
 		technique: "finite-domain tabulation; path-sensitive error typestate; field-store inventory on the csv reader",
 		expl:      "decides the truncation and acceptance logic around encoding/csv and the JSON scanner",
 		notCovered: []string{"behaviour of encoding/csv at every cut position"},
-		rules:      []*core.Rule{ruleDropLastLine, ruleInspectedGuard, ruleLineThresholds, ruleTruncTable, ruleSnapshot, rulePools}}),
+		rules:      []*core.Rule{ruleDropLastLine, ruleInspectedGuard, ruleLineThresholds, ruleTruncTable, ruleSnapshot, rulePools, ruleFailProp}}),
 	mk(pd{id: "C14", level: "other",
 		levelText: "Extend builds a fresh node from its parameters with parent = receiver and publishes [new] ++ old by one store under the write lock, old children read under the same lock; package-level Extend delegates to the root; lookup visits type, every alias and every child; the walk is first-match over whatever children holds; results are clones.",
 		technique: "shape rules on Extend's SSA; lockset regions; origin analysis",
 		expl:      "with C03's rules, structurally complete for the priority and isolation clauses",
 		notCovered: []string{},
-		rules:      []*core.Rule{ruleExtend, ruleLookup, ruleWalkDiscipline, ruleFreshResults, ruleWriteOnce}}),
+		rules:      []*core.Rule{ruleExtend, ruleLookup, ruleWalkDiscipline, ruleFreshResults, ruleWriteOnce, ruleSnapshot, ruleParams, rulePkgState}}),
 	mk(pd{id: "C15", level: "other",
 		levelText: "Both operands of every comparison in Is / EqualsAny are ParseMediaType results, except alias operands, which are registered normalised; every registered name and alias is a lower-case token/token; every alias / candidate is visited; lookup compares exactly; results' type strings come only from FormatMediaType over a registered name.",
 		technique: "value-provenance rule on string comparisons; token grammar on folded constants",
 		expl:      "decides normalisation discipline of the equality helpers",
 		notCovered: []string{"ParseMediaType invariances (stdlib)"},
-		rules:      []*core.Rule{ruleAliases, ruleNames, ruleEquality, ruleLookup, ruleParams}}),
+		rules:      []*core.Rule{ruleAliases, ruleNames, ruleEquality, ruleLookup, ruleParams, rulePkgState}}),
 	mk(pd{id: "C16", level: "proof",
 		levelText: "Every recursive SCC of module functions is either the scanner family — guard tabulated around the cap, depth grows on every cycle through the guard, every construction installs a positive constant cap, nothing overwrites it, entry at depth 0 — or structural over the tree's children. On the capped edge the scanner fails and failure propagates.",
 		technique: "Tarjan SCC inventory over static calls; finite-domain tabulation of the guard; shortest-cycle increment; constructor/store inventory",
@@ -151,5 +151,5 @@ var props = []*core.Property{
 		technique: "constant folding at call sites; step whitelist and shape rules on the walker's SSA; tree model",
 		expl:      "decides the constants and the layout of the entry walk",
 		notCovered: []string{"agreement of the header walk with the archive's real entry list"},
-		rules:      []*core.Rule{ruleZipMarkers, ruleZipSignatures, ruleZipWalk}}),
+		rules:      []*core.Rule{ruleZipMarkers, ruleZipSignatures, ruleZipWalk, rulePkgState}}),
 }
